@@ -5,7 +5,7 @@ import re
 
 import vlib
 
-PROPS = ['Rangers.Props.C09', 'Rangers.Props.C09B', 'Rangers.Props.C09C', 'Rangers.Props.C09D', 'Rangers.Props.C09E', 'Rangers.Props.C09F']
+PROPS = ['Rangers.Props.C09', 'Rangers.Props.C09B', 'Rangers.Props.C09C', 'Rangers.Props.C09D', 'Rangers.Props.C09E', 'Rangers.Props.C09F', 'Rangers.Props.C09G']
 DRIVERS = ['C09']
 META = dict(
     level='proof',
